@@ -27,13 +27,17 @@ fn main() {
         let text = std::fs::read_to_string(path).expect("cannot read replay file");
         if text.lines().any(|l| l.trim_start().starts_with("extra ")) {
             match mmv_pure::replay(&text) {
-                Some(why) => {
+                Ok(Some(why)) => {
                     println!("REPLAY-VIOLATION props=[\"C15\"] {}", why);
                     std::process::exit(1);
                 }
-                None => {
+                Ok(None) => {
                     println!("replayed pair: no difference");
                     std::process::exit(0);
+                }
+                Err(e) => {
+                    println!("replay file is not a history pair: {}", e);
+                    std::process::exit(2);
                 }
             }
         }
@@ -404,8 +408,9 @@ mod mmv_pure {
             let mut truth = Truth::new(&cfg);
             let mut cut = Cut::new(&cfg);
             let mut base: Vec<Op> = Vec::new();
-            // per position: (LRU key, key closest to its idle deadline)
-            let mut hints: Vec<(Option<u32>, Option<u32>)> = Vec::new();
+            // per position: (LRU key, key closest to its idle deadline, work pending: a size excess left
+            // by a grown update, or an entry past its deadline that is still held)
+            let mut hints: Vec<(Option<u32>, Option<u32>, bool)> = Vec::new();
             let mut ok = true;
             for _ in 0..nops {
                 let now = cut.now();
@@ -419,7 +424,12 @@ mod mmv_pure {
                         .map(|x| x.1)
                         .next()
                 });
-                hints.push((lru, near));
+                let excess = cfg.cap.map(|c| s.weighted_size > c).unwrap_or(false);
+                let dead_held = s.entries.iter().any(|e| {
+                    cfg.ttl.map(|t| e.lm.map(|lm| lm.saturating_add(t) <= now).unwrap_or(false)).unwrap_or(false)
+                        || cfg.tti.map(|t| e.la.map(|la| la.saturating_add(t) <= now).unwrap_or(false)).unwrap_or(false)
+                });
+                hints.push((lru, near, excess || dead_held));
                 let op = gen.next_op(&cfg, &truth, now);
                 base.push(op);
                 let eff = |w: u32| if cfg.weigher { w } else { 1 };
@@ -455,14 +465,20 @@ mod mmv_pure {
             // extended history
             let mut ext: Vec<(Op, bool)> = Vec::new();
             let mut targeted = (false, false, false);
+            let mut targeted_pending = false;
             let mut extras = 0;
             for (i, op) in base.iter().enumerate() {
                 let mut k_extra = rng.range(0, 2);
                 if rng.chance(1, 2) {
                     k_extra = 0;
                 }
+                if hints[i].2 && rng.chance(3, 4) {
+                    // an observation right before the operation that has to do the pending work
+                    k_extra = k_extra.max(1);
+                    targeted_pending = true;
+                }
                 for _ in 0..k_extra {
-                    let (lru, near) = hints[i];
+                    let (lru, near, _) = hints[i];
                     let e = match rng.below(10) {
                         0..=2 => match lru {
                             Some(k) => {
@@ -506,6 +522,9 @@ mod mmv_pure {
             if targeted.2 {
                 report.stats.inc("pairs_with_extra_call_on_candidate_before_insert");
             }
+            if targeted_pending {
+                report.stats.inc("pairs_with_extra_call_while_excess_or_dead_entry_pending");
+            }
             if extras > 0 && (targeted.0 || targeted.1 || targeted.2) {
                 report.distinct.entry("C15".into()).or_default().push(h.fingerprint() ^ extras);
             }
@@ -545,24 +564,25 @@ mod mmv_pure {
     }
 
     /// Replays a pure-mode witness file (lines `extra <op>` mark the added observations).
-    pub fn replay(text: &str) -> Option<String> {
+    /// Ok(Some(why)): the pair differs; Ok(None): no difference; Err: the file cannot be read as a pair.
+    pub fn replay(text: &str) -> Result<Option<String>, String> {
         let mut cfg = None;
         let mut ext = Vec::new();
         for line in text.lines() {
             let line = line.trim();
-            if line.is_empty() {
+            if line.is_empty() || line.starts_with('#') {
                 continue;
             }
             if line.starts_with("config") {
                 cfg = Config::parse_line(line);
             } else if let Some(rest) = line.strip_prefix("extra ") {
-                ext.push((Op::parse_line(rest)?, false));
+                ext.push((Op::parse_line(rest).ok_or_else(|| format!("cannot parse `{}`", line))?, false));
             } else {
-                ext.push((Op::parse_line(line)?, true));
+                ext.push((Op::parse_line(line).ok_or_else(|| format!("cannot parse `{}`", line))?, true));
             }
         }
-        let cfg = cfg?;
+        let cfg = cfg.ok_or_else(|| "no config line".to_string())?;
         let base: Vec<Op> = ext.iter().filter(|x| x.1).map(|x| x.0).collect();
-        compare(&cfg, &base, &ext).map(|x| x.1)
+        Ok(compare(&cfg, &base, &ext).map(|x| x.1))
     }
 }
